@@ -237,6 +237,7 @@ func Instances() []Instance {
 	add(4, "IA_TA/two-addrs", func() dhcpv6.Option { return iata(iaid0, iaaddr(AddrA, 0, 0), iaaddr(AddrOnes, maxSec, maxSec)) })
 	// 5: IAADDR
 	add(5, "IAADDR/zero", func() dhcpv6.Option { return iaaddr(AddrZero, 0, 0) })
+	add(5, "IAADDR/v4-mapped", func() dhcpv6.Option { return iaaddr(net.ParseIP("::ffff:192.0.2.33"), durA, durB) })
 	add(5, "IAADDR/distinct", func() dhcpv6.Option { return iaaddr(AddrA, durA, durB) })
 	add(5, "IAADDR/ones-max", func() dhcpv6.Option { return iaaddr(AddrOnes, maxSec, maxSec) })
 	add(5, "IAADDR/1s-max", func() dhcpv6.Option { return iaaddr(AddrB, time.Second, maxSec) })
@@ -366,6 +367,32 @@ func Instances() []Instance {
 	add(24, "domains/253", func() dhcpv6.Option {
 		return dhcpv6.OptDomainSearchList(labels(Label63 + "." + Label63 + "." + Label63 + "." + Label63[:61]))
 	})
+	add(24, "domains/six-of-51-octets", func() dhcpv6.Option {
+		// every name is short, their wire lengths add up to 306 octets: a limit that applies per name must not accumulate
+		var ns []string
+		for i := 0; i < 6; i++ {
+			ns = append(ns, strings.Repeat(string(rune('a'+i)), 49))
+		}
+		return dhcpv6.OptDomainSearchList(labels(ns...))
+	})
+	add(24, "domains/compressed-pointer-to-offset-256", func() dhcpv6.Option {
+		// nine 32-octet names, then "www" + a pointer to offset 256 (the ninth name): parsed from bytes so that the
+		// option re-emits the compressed form
+		var raw []byte
+		for i := 0; i < 9; i++ {
+			raw = append(raw, 30)
+			for k := 0; k < 30; k++ {
+				raw = append(raw, byte('a'+i))
+			}
+			raw = append(raw, 0)
+		}
+		raw = append(raw, 3, 'w', 'w', 'w', 0xc1, 0x00)
+		l, err := rfc1035label.FromBytes(raw)
+		if err != nil {
+			return dhcpv6.OptDomainSearchList(labels("fallback.example"))
+		}
+		return dhcpv6.OptDomainSearchList(l)
+	})
 	add(24, "domains/repeat", func() dhcpv6.Option { return dhcpv6.OptDomainSearchList(labels("example.com", "example.com")) })
 	// 25: IA_PD
 	add(25, "IA_PD/zero", func() dhcpv6.Option { return iapd(iaid0, 0, 0) })
@@ -381,6 +408,7 @@ func Instances() []Instance {
 	})
 	add(25, "IA_PD/unknown-nested", func() dhcpv6.Option { return iapd(iaid0, durB, durA, generic(67, Bytes(4, 3))) })
 	// 26: IAPREFIX
+	add(26, "IAPREFIX/v4-mapped-96", func() dhcpv6.Option { return iaprefix(net.ParseIP("::ffff:0:0"), 96, durA, durB) })
 	add(26, "IAPREFIX/nil", func() dhcpv6.Option { return iaprefix(nil, 0, 0, 0) })
 	add(26, "IAPREFIX/zero-len0", func() dhcpv6.Option { return iaprefix(AddrZero, 0, time.Second, maxSec) })
 	add(26, "IAPREFIX/len1", func() dhcpv6.Option { return iaprefix(AddrA, 1, maxSec, time.Second) })
@@ -778,6 +806,10 @@ func RelayChain(depth int, inner dhcpv6.DHCPv6, idMask uint32) dhcpv6.DHCPv6 {
 		}
 		link, peer := ipc(AddrA), ipc(AddrB)
 		link[15], peer[15] = byte(i), byte(0x80+i)
+		if i == 2 {
+			// an IPv4-mapped address is a legal 16-octet value of these fields
+			link, peer = net.ParseIP("::ffff:192.0.2.33"), net.ParseIP("::ffff:198.51.100.7")
+		}
 		r := &dhcpv6.RelayMessage{MessageType: t, HopCount: uint8(i - 1), LinkAddr: link, PeerAddr: peer}
 		var ids dhcpv6.Options
 		if idMask>>(2*uint(i-1))&1 != 0 {
